@@ -45,3 +45,17 @@ Theorem C07_one_value_whatever_the_fuel :
   forall n m e v v', run_data n e = Ok v -> run_data m e = Ok v' -> v = v'.
 Proof. exact run_data_fuel_independent. Qed.
 Print Assumptions C07_one_value_whatever_the_fuel.
+
+(* the relational operators do not depend on the order in which either operand is enumerated *)
+Theorem C07_joins_and_nests_ignore_enumeration_order :
+  forall a a' b b', Permutation a a' -> Permutation b b' ->
+    (forall op, join_data op a b = join_data op a' b') /\
+    (forall names n, nest_data names n a = nest_data names n a') /\
+    (forall n, single_nest_data n a = single_nest_data n a').
+Proof.
+  intros a a' b b' Ha Hb. repeat split; intros.
+  - apply join_data_perm; assumption.
+  - apply nest_data_perm, Ha.
+  - apply single_nest_data_perm, Ha.
+Qed.
+Print Assumptions C07_joins_and_nests_ignore_enumeration_order.
